@@ -149,7 +149,11 @@ def finish(ctx, required_ops, rule, level='exploration', assumptions=(), exhaust
     for mech, w in sorted(ctx.violations.items()):
         f = classify(pid, mech, known)
         (listed if f else real).append((mech, w, f))
-    rdir = os.path.join(VERIF, 'replays', pid)
+    outroot = VERIF
+    if os.environ.get('VERIF_NO_EVIDENCE'):        # mutant / self-test runs must not touch the committed evidence
+        import tempfile
+        outroot = os.path.join(tempfile.gettempdir(), 'verif_scratch_%d' % os.getuid())
+    rdir = os.path.join(outroot, 'replays', pid)
     lines = []
     for mech, w, f in listed:
         lines.append('KNOWN-FINDING: property=%s %s [%s; observed %d times, mechanism %s]' % (
@@ -192,9 +196,9 @@ def finish(ctx, required_ops, rule, level='exploration', assumptions=(), exhaust
         cov.update(extra_cov)
     ev = {'property_id': pid, 'tier': ctx.tier, 'seed': ctx.seed, 'level': level, 'coverage': cov,
           'assumptions': list(assumptions), 'wall_s': round(wall, 2), 'violations': len(real)}
-    os.makedirs(os.path.join(VERIF, 'evidence'), exist_ok=True)
+    os.makedirs(os.path.join(outroot, 'evidence'), exist_ok=True)
     _validate(ev)
-    json.dump(ev, open(os.path.join(VERIF, 'evidence', pid + '.json'), 'w'), indent=1, default=str)
+    json.dump(ev, open(os.path.join(outroot, 'evidence', pid + '.json'), 'w'), indent=1, default=str)
     for l in lines:
         print(l)
     print('%s tier=%s seed=%d: %d cases, %d checked events, %d distinct classes, %d violating mechanisms '
